@@ -71,6 +71,8 @@ RunStats g_stats;
 FatalFn g_fatal = nullptr;
 void (*g_body_done)(int) = nullptr;
 void (*g_thread_exit)(int) = nullptr;
+void (*g_on_step)(int) = nullptr;
+void (*g_on_report)(const Report &) = nullptr;
 thread_local int my = -1;
 
 [[noreturn]] void
@@ -202,6 +204,7 @@ step_common(Kind k, const void *addr)
     fprintf(stderr, "%6lu T%d@%u %-7s %p%s\n", E->step, my, me.lstep, kn[k], addr, me.yielding ? " (yielding)" : "");
   }
   if (E->step > E->cfg.maxsteps) fatal(kStepBound);
+  if (g_on_step) g_on_step(my);
   if (me.idle >= E->cfg.K) check_stuck();
 }
 
@@ -390,6 +393,7 @@ void
 report(const char *kind, const std::string &msg)
 {
   g_reports.push_back(Report{kind, msg, my, E ? E->step : 0});
+  if (g_on_report) g_on_report(g_reports.back());
   if (E && E->cfg.trace) fprintf(stderr, "  !! REPORT %s: %s (T%d step %lu)\n", kind, msg.c_str(), my, E->step);
 }
 
@@ -486,6 +490,18 @@ void
 on_thread_exit(void (*cb)(int))
 {
   g_thread_exit = cb;
+}
+
+void
+on_step(void (*cb)(int))
+{
+  g_on_step = cb;
+}
+
+void
+on_report(void (*cb)(const Report &))
+{
+  g_on_report = cb;
 }
 
 void
